@@ -32,7 +32,7 @@ theorem priorityRespecting_of_inF2 {inst : Instance} (hwf : inst.WF) (hF : inst.
   exfalso
   -- the single worker
   simp only [Instance.inF2, Bool.and_eq_true, decide_eq_true_eq, List.all_eq_true] at hF
-  obtain ⟨⟨hlen, hrc⟩, hwt⟩ := hF
+  obtain ⟨⟨⟨hlen, hrc⟩, hwt⟩, _⟩ := hF
   obtain ⟨w, hw⟩ : ∃ w, inst.workers = [w] := by
     match hws : inst.workers, hlen with
     | [w], _ => exact ⟨w, rfl⟩
